@@ -313,17 +313,26 @@ func c15DefaultsBeforeOptions(c *Ctx, rule string) {
 			applies = append(applies, cl)
 		}
 	}
+	// the fields an option can set: those stored by the functions of the package other than the constructor (the option
+	// literals and apply methods); a late store into any other field (the core, say) overrides no option
+	optionField := map[string]bool{}
+	c.EachRootFunc(func(g *ssa.Function) {
+		if g == fn || g.Pkg == nil || g.Pkg.Pkg.Path() != SlogPath {
+			return
+		}
+		for _, fs := range FieldStoresOf(g, hn) {
+			if _, isParam := Root(fs.Addr.X).(*ssa.Parameter); isParam && (g.Parent() != nil || FNm(g) == "apply") {
+				optionField[fs.Field] = true
+			}
+		}
+	})
 	storesHandler := func(g *ssa.Function) bool {
 		found := false
-		AllInstrs(g, func(in ssa.Instruction) {
-			if st, ok := in.(*ssa.Store); ok {
-				if fa, ok := st.Addr.(*ssa.FieldAddr); ok {
-					if nn, _ := types.Unalias(deref(fa.X.Type())).(*types.Named); nn != nil && nn.Obj() == hn.Obj() {
-						found = true
-					}
-				}
+		for _, fs := range FieldStoresOf(g, hn) {
+			if optionField[fs.Field] {
+				found = true
 			}
-		})
+		}
 		return found
 	}
 	var late []string
@@ -335,7 +344,7 @@ func c15DefaultsBeforeOptions(c *Ctx, rule string) {
 			switch x := in.(type) {
 			case *ssa.Store:
 				if fa, ok := x.Addr.(*ssa.FieldAddr); ok {
-					if nn, _ := types.Unalias(deref(fa.X.Type())).(*types.Named); nn != nil && nn.Obj() == hn.Obj() {
+					if nn, _ := types.Unalias(deref(fa.X.Type())).(*types.Named); nn != nil && nn.Obj() == hn.Obj() && optionField[fieldName(fa.X.Type(), fa.Field)] {
 						late = append(late, "store to "+Desc(x.Addr))
 					}
 				}
@@ -346,5 +355,5 @@ func c15DefaultsBeforeOptions(c *Ctx, rule string) {
 			}
 		})
 	}
-	c.Check(len(applies) > 0 && len(late) == 0, rule, FStr(fn), "defaults-before-options", fn.Pos(), "nothing is stored into the handler once an option has been applied (a default set afterwards cannot tell \"unset\" from the zero value the user asked for): %v", uniqSorted(late))
+	c.Check(len(applies) > 0 && len(late) == 0 && len(optionField) > 0, rule, FStr(fn), "defaults-before-options", fn.Pos(), "no field an option can set is stored into once an option has been applied (a default set afterwards cannot tell \"unset\" from the zero value the user asked for): %v", uniqSorted(late))
 }
